@@ -32,7 +32,7 @@ from happysimulator.core.temporal import Instant
 from simkit.refengine import q
 
 TIMES_NS = [0, 0, 1, 2, 1_000, 1_001, 10_000_000_000, 10_000_001_000]
-DELAYS_S = [0.0, 0.0, 4e-10, 1e-9, 1e-6, 10.0]
+DELAYS_S = [0.0, 0.0, 4e-10, 1e-9, 1e-6, 10.0, 0, 1, 0.1 + 0.2, 86400.0]   # ints are legal delays too
 DTS_NS = [0, 0, 1, 1_000, 10_000_000_000]
 
 
@@ -142,7 +142,7 @@ def gen_procprog(rng: random.Random) -> dict:
     procs = []
     for _ in range(n_procs):
         steps = gen_steps(0, 6, [0])
-        procs.append({"t": rng.choice(TIMES_NS), "hook": rng.random() < 0.5, "hook_when": rng.choice(["create", "create", "body"]), "wrap_gen": rng.random() < 0.15, "ret_shared": rng.random() < 0.5,
+        procs.append({"t": rng.choice(TIMES_NS), "hook": rng.random() < 0.5, "hook_when": rng.choice(["create", "create", "body"]), "wrap_gen": rng.random() < 0.15, "host_once": rng.random() < 0.15, "ret_shared": rng.random() < 0.5,
                       "hook_emits": [], "steps": steps, "ret": rng.choice(["none", "one", "list"]),
                       "ret_emits": [], "daemon": rng.random() < 0.1})
     # emits that refer to any future (now that all exist)
@@ -439,7 +439,12 @@ class EngineWorld:
     def initial_events(self) -> list[Event]:
         out = []
         for i, p in enumerate(self.sc["procs"]):
-            ev = Event(time=Instant(p["t"]), event_type="start", target=self.procs[i], daemon=p.get("daemon", False))
+            if p.get("host_once"):
+                # the process is the generator returned by a one-shot callback (Event.once -> CallbackEntity)
+                ev = Event.once(time=Instant(p["t"]), event_type="start", fn=self.procs[i].handle_event,
+                                daemon=p.get("daemon", False))
+            else:
+                ev = Event(time=Instant(p["t"]), event_type="start", target=self.procs[i], daemon=p.get("daemon", False))
             if p.get("hook") and p.get("hook_when", "create") == "create":
                 ev.add_completion_hook(self._hook(("proc", i), p.get("hook_emits", [])))
             out.append(ev)
